@@ -2764,7 +2764,11 @@ fn f64_repr(n: f64) -> String {
     } else {
         abs.to_string()
     };
-    if n < 0.0 { format!("¯{pos}") } else { pos }
+    if n < 0.0 || n == 0.0 && n.is_sign_negative() {
+        format!("¯{pos}")
+    } else {
+        pos
+    }
 }
 
 impl Value {
